@@ -77,6 +77,11 @@ bool ossGridFacet::ShiftPict(const PictID pid, int32_t shift) {
 }
 
 void ossGridFacet::LoadPosition(PictID pid, GridPosition pos) {
+  if (!core.Contains(pid)) {
+    return;
+  } else if (const auto occupant = operator()(pos); occupant.has_value() && occupant.value() != pid) {
+    pos = ClosestFreePos(pos); // Note: same rule as LoadPict, the occupant keeps its cell
+  }
   SetPosFor(pid, pos);
 }
 
